@@ -16,8 +16,31 @@ def pairs(ck):
     while done < n and tries < n * 6:
         tries += 1
         r = random.Random(ck.rng.getrandbits(48))
-        fam, T, roots = sysrun.gen_graph(r, family=r.choice(['svc', 'aggchain', 'random', 'random', 'fan', 'diamond']))
+        if tries % 3 == 0:
+            # deep nesting: an aggregate over something direct and over a long chain of nested aggregates ending in a shared
+            # aggregate / build / service (late requesters of aggregates, `actual` flags collected in unusual orders)
+            fam = 'deepnest'
+            depth = r.choice([5, 12, 40])
+            leafkind = r.choice(['build', 'service', 'build'])
+            T = {'leaf': {'kind': leafkind, 'deps': []}, 'group': {'kind': 'aggregate', 'deps': ['leaf']}}
+            prev = r.choice(['group', 'leaf'])
+            for i in range(depth, 0, -1):
+                T['d%d' % i] = {'kind': 'aggregate', 'deps': [prev]}
+                prev = 'd%d' % i
+            other = r.choice(['group', 'leaf', 'svc2', 'fast'])
+            if other == 'svc2':
+                T['svc2'] = {'kind': 'service', 'deps': []}
+            if other == 'fast':
+                T['fast'] = {'kind': 'build', 'deps': []}
+            tops = [other, 'd1']
+            r.shuffle(tops)
+            T['all'] = {'kind': 'aggregate', 'deps': tops}
+            roots = ['all']
+        else:
+            fam, T, roots = sysrun.gen_graph(r, family=r.choice(['svc', 'aggchain', 'random', 'random', 'fan', 'diamond']))
         aggs = [t for t in T if T[t]['kind'] == 'aggregate']
+        if fam == 'deepnest':
+            aggs = ['all']
         if not aggs:
             continue
         G = r.choice(aggs)
